@@ -63,9 +63,10 @@ Render(e) ==
     [] e.op = "not" -> "NOT " \o Sub(e.e, 3)
     [] e.op = "and" -> Join(e.kids, " AND ", 3)
     [] e.op = "or" -> Join(e.kids, " OR ", 2)
-    [] e.op = "andnot" -> Sub(e.a, 1) \o " ANDNOT " \o Sub(e.b, 1)
-    [] e.op = "andmaybe" -> Sub(e.a, 1) \o " ANDMAYBE " \o Sub(e.b, 1)
-    [] e.op = "require" -> Sub(e.a, 1) \o " REQUIRE " \o Sub(e.b, 1)
+    \* a chain of one and the same binary operator associates to the left and needs no parentheses there
+    [] e.op = "andnot" -> Sub(e.a, IF e.a.op = "andnot" THEN 0 ELSE 1) \o " ANDNOT " \o Sub(e.b, 1)
+    [] e.op = "andmaybe" -> Sub(e.a, IF e.a.op = "andmaybe" THEN 0 ELSE 1) \o " ANDMAYBE " \o Sub(e.b, 1)
+    [] e.op = "require" -> Sub(e.a, IF e.a.op = "require" THEN 0 ELSE 1) \o " REQUIRE " \o Sub(e.b, 1)
     [] e.op = "group" -> Join(e.kids, " ", 0)
     [] e.op = "pm" -> LET RECURSIVE R(_)
                           R(i) == IF i > Len(e.items) THEN ""
